@@ -304,6 +304,34 @@ Theorem C13_blsg1_decode_encode_subgroup_points : forall P, prime bls12381_p ->
 Proof. exact blsg1_roundtrip_instance. Qed.
 Print Assumptions C13_blsg1_decode_encode_subgroup_points.
 
+(* BLS12-381 G2: the library's Fp2 square root (norm, (v0 +- sqrt norm)/2, base-field branch) finds
+   a root of every square when p = 3 mod 4, hence the round trip for subgroup points *)
+Theorem C13_fp2_sqrt_complete : forall c, w2codec_ok c -> forall y, z2_canon (w2c_p c) y ->
+  exists s, fp2_sqrt c (fmul (K2 c) y y) = Some s /\ (s = y \/ s = fopp (K2 c) y).
+Proof. exact fp2_sqrt_complete. Qed.
+Print Assumptions C13_fp2_sqrt_complete.
+
+Theorem C13_decode_encode_point_blsg2_compressed : forall c, w2codec_ok c ->
+  (1 <= w2c_len c)%nat -> 8 * w2c_p c <= 256 ^ Z.of_nat (w2c_len c) -> forall P,
+  w2_on_curve (w2c c) P = true -> w2_canon c P -> w2_in_subgroup c P ->
+  blsg2_dec_c c (blsg2_enc_c c P) = Some P.
+Proof. exact blsg2_roundtrip_c. Qed.
+Print Assumptions C13_decode_encode_point_blsg2_compressed.
+
+Theorem C13_decode_encode_point_blsg2_uncompressed : forall c, w2codec_ok c ->
+  (1 <= w2c_len c)%nat -> 8 * w2c_p c <= 256 ^ Z.of_nat (w2c_len c) -> forall P,
+  w2_on_curve (w2c c) P = true -> w2_canon c P -> w2_in_subgroup c P ->
+  blsg2_dec_u c (blsg2_enc_u c P) = Some P.
+Proof. exact blsg2_roundtrip_u. Qed.
+Print Assumptions C13_decode_encode_point_blsg2_uncompressed.
+
+Theorem C13_blsg2_decode_encode_subgroup_points : forall P, prime bls12381_p ->
+  w2_on_curve (w2c blsg2_codec) P = true -> w2_canon blsg2_codec P -> w2_in_subgroup blsg2_codec P ->
+  blsg2_dec_c blsg2_codec (blsg2_enc_c blsg2_codec P) = Some P /\
+  blsg2_dec_u blsg2_codec (blsg2_enc_u blsg2_codec P) = Some P.
+Proof. exact blsg2_roundtrip_instance. Qed.
+Print Assumptions C13_blsg2_decode_encode_subgroup_points.
+
 (* ---- the named curves (primality of the modulus is the only hypothesis left) ----------------- *)
 
 Theorem C13_k256_decode_encode_all_points : forall P, prime (wp_p k256_params) ->
